@@ -13,12 +13,13 @@ pub enum Kind {
     Node,   // #[compound] struct Node(LTerm, Node, Node)  -- recursive, typed fields
     Tuple,  // Rust 2-tuple (LTerm, LTerm)
     Wrap,   // #[compound] struct Wrap(LTerm, Option<Pair>): second argument is [] (None) or a Pair (Some)
+    Pair2,  // #[compound] struct Pair(LTerm, LTerm) in ANOTHER module (cmp2): same identifier, same shape, other type
 }
 
 impl Kind {
     pub fn arity(self) -> usize {
         match self {
-            Kind::Pair | Kind::Duo | Kind::Rec | Kind::Tuple | Kind::Wrap => 2,
+            Kind::Pair | Kind::Duo | Kind::Rec | Kind::Tuple | Kind::Wrap | Kind::Pair2 => 2,
             Kind::Triple | Kind::Node => 3,
         }
     }
@@ -31,6 +32,7 @@ impl Kind {
             Kind::Node => "Node",
             Kind::Tuple => "",
             Kind::Wrap => "Wrap",
+            Kind::Pair2 => "cmp2::Pair",
         }
     }
     pub fn from_type_name(n: &str) -> Option<Kind> {
@@ -288,6 +290,9 @@ pub enum Rel {
     Zeros,
     /// nrev(l, r): naive reverse (recursion, then append)
     Nrev,
+    /// deepnever(l): walks the proper list l by NON-tail recursion and calls never() at its end:
+    /// a silent diverger below |l| pending conjunctions (interleaving search only)
+    DeepNever,
 }
 
 impl Rel {
@@ -310,13 +315,14 @@ impl Rel {
             Rel::MemberRev => "memberrev",
             Rel::Zeros => "zeros",
             Rel::Nrev => "nrev",
+            Rel::DeepNever => "deepnever",
         }
     }
     pub fn arity(self) -> usize {
         match self {
             Rel::Member | Rel::Member1 | Rel::Permute | Rel::First | Rel::Rest | Rel::LenLe | Rel::Downfrom | Rel::MemberRev | Rel::Nrev => 2,
             Rel::Append | Rel::Rember | Rel::Cons => 3,
-            Rel::Distinct | Rel::Empty | Rel::Nat | Rel::Zeros => 1,
+            Rel::Distinct | Rel::Empty | Rel::Nat | Rel::Zeros | Rel::DeepNever => 1,
             Rel::Diverge => 0,
         }
     }
